@@ -162,12 +162,12 @@ Definition try_sub (cur : cmd) (st : pstate) : bool :=
 
 (** one step of the escaped shadow parse: descent on a subcommand name, otherwise a positional value is counted -
     no token is read as an option, [--] or anything else; the escape flag stays *)
-Theorem escaped_step arg cur pi st :
-  shadow_step arg cur pi true st =
-  match (if try_sub cur st && utf8_valid arg then find_subcommand cur arg else None) with
-  | Some next => SNext next 1 true ValueDone
+Theorem escaped_step arg cur pi st vaf :
+  shadow_step arg cur pi true st vaf =
+  match (if try_sub cur st && negb (is_set s_args_negate_subs cur && vaf) && utf8_valid arg then find_subcommand cur arg else None) with
+  | Some next => SNext next 1 true ValueDone false
   | None => match parse_positional cur pi true st with
-            | Some (st', pi') => SNext cur pi' true st'
+            | Some (st', pi') => SNext cur pi' true st' true
             | None => SPanic 673
             end
   end.
